@@ -185,7 +185,7 @@ structure Info where
   mac : List Char
   cfg : Nat
   paired : Bool          -- `state.paired`, i.e. `len(paired_clients) > 0`
-  setupHash : String     -- `_setup_hash()` (SHA-512 based, passed through)
+  setupHash : String     -- `_setup_hash()`; the driver computes it with `setupHash` below
 
 /-- the dict returned by `_get_advert_data`, in insertion order -/
 def advertData (i : Info) : List (String × String) :=
